@@ -9,23 +9,49 @@
 //!    send m in S; otherwise Err, nothing on the wire, `state()` unchanged;
 //!  * raw-recv m:  after injecting m, `recv_message()` is Ok(m)  ⇔  the peer may send m in S;
 //!    otherwise Err and `state()` unchanged;
-//!  * op:          a high-level method = a fixed sequence of Send(m)/Recv steps. With the peer's
-//!    messages for the Recv steps injected beforehand, the call is Ok ⇔ every step is a spec edge;
-//!    `state()` afterwards is the spec state after the last legal step; the wire shows exactly the
-//!    messages of the legal Send steps. ("Ok with nothing sent and no state change" is tolerated
+//!  * op:          a high-level method = a small automaton of Send(m)/Recv steps (a Recv step may
+//!    dispatch on the kind it reads: continue, read again, return early, or refuse a kind the
+//!    method has no use for). With the peer's messages for the Recv steps injected beforehand (or,
+//!    for `reactive` methods, answered while the call runs), the call is Ok ⇔ every step is a spec
+//!    edge; `state()` afterwards is the spec state after the last legal step; the wire shows exactly
+//!    the messages of the legal Send steps. ("Ok with nothing sent and no state change" is tolerated
 //!    for an illegal send: nothing was accepted for sending.)
+//!  * observers:   after every action `has_agency()` (where public) equals the spec's agency for
+//!    the state the agent reports, `is_done()` (where public) equals "that state is Done".
+//!  * payload:     a message of a legal kind whose content must be refused (wrong cookie, field of
+//!    the wrong CBOR type, unknown inner tag, out-of-range number) is answered with an error, nothing
+//!    is sent and `state()` stays where it was.
 use crate::c23_agents as ag;
-use crate::net::{self, RawPeer, Sentinel, Trouble};
+use crate::net::{self, RawPeer, RawRecv, Sentinel, Trouble};
 use crate::spec::{Proto, Role};
 use pallas_network::multiplexer::AgentChannel;
 use proptest::prelude::*;
 use pvkit::{pick_idx, Fail, Obs, Session};
 use serde::{Deserialize, Serialize};
+use std::collections::{BTreeSet, HashMap};
+use std::sync::{Arc, Mutex, OnceLock};
+
+/// What a method does after a Recv step has read a message of a given kind.
+#[derive(Debug, Clone, Copy, PartialEq, Eq)]
+pub enum Next {
+    /// go on with the next step
+    Cont,
+    /// repeat this step (the method loops until another kind arrives)
+    Again,
+    /// the method returns now (success, or a domain-level error value the adapter maps to success)
+    Stop,
+    /// the method has consumed a spec-legal message it has no use for: its result is not judged,
+    /// the state must be the spec state after that message
+    Refuse,
+}
 
 #[derive(Debug, Clone, Copy, PartialEq, Eq)]
 pub enum Step {
     Send(&'static str),
+    /// reads one message; every kind the spec allows continues with the next step
     Recv,
+    /// reads one message and dispatches on its kind; spec-legal kinds that are not listed are `Refuse`
+    RecvMap(&'static [(&'static str, Next)]),
 }
 
 #[derive(Debug)]
@@ -36,6 +62,23 @@ pub struct OpDef {
     pub from: &'static [&'static str],
     /// the method does something else outside `from` (state-dependent dispatch): never call it there
     pub only_from: bool,
+    /// the peer's replies depend on what the agent sends during the same call (keep-alive cookie):
+    /// the raw peer answers while the call runs instead of queueing its messages beforehand
+    pub reactive: bool,
+}
+
+impl OpDef {
+    /// name of the pallas method behind this op ("send_block_range(2)" -> "send_block_range")
+    pub fn method(&self) -> &'static str {
+        let n: &'static str = self.name;
+        match n.find(|c| c == '(' || c == '@') {
+            Some(i) => &n[..i],
+            None => n,
+        }
+    }
+    fn n_recv(&self) -> usize {
+        self.steps.iter().filter(|s| !matches!(s, Step::Send(_))).count()
+    }
 }
 
 pub struct Ctx {
@@ -55,6 +98,10 @@ pub struct Seen {
     pub cookie: Option<u16>,
 }
 
+/// A message kind whose content can be made unacceptable: (kind, variant, only through high-level
+/// methods). Variants are named `<class>` or `<class>+<n>`; the class goes into the signature.
+pub type BadDef = (&'static str, &'static str, bool);
+
 #[allow(async_fn_in_trait)]
 pub trait Agent: Sized {
     const NAME: &'static str;
@@ -63,16 +110,57 @@ pub trait Agent: Sized {
     const RAW_SEND: bool;
     const RAW_RECV: bool;
     const OPS: &'static [OpDef];
+    /// every public method of the pallas agent that sends, receives or observes the state machine
+    /// (derived by hand from the sources; `run` compares it with the sources and with what was called)
+    const METHODS: &'static [&'static str];
+    /// source files (relative to the pallas repository; `true`: only `pub async fn` are agent methods)
+    const SOURCES: &'static [(&'static str, bool)];
+    const BAD: &'static [BadDef] = &[];
     fn proto() -> &'static Proto;
     fn new(ch: AgentChannel) -> Self;
     /// name of the pallas state (payload dropped)
     fn state(&self) -> &'static str;
+    /// `has_agency()` / `is_done()` where the agent makes them public
+    fn has_agency(&self) -> Option<bool>;
+    fn is_done(&self) -> Option<bool>;
     /// bytes of a representative message of this kind (for injection by the raw peer)
     fn encode(kind: &str, ctx: &Ctx) -> Vec<u8>;
     fn decode(bytes: &[u8]) -> Option<Seen>;
+    /// bytes of a message of this kind whose content must be refused
+    fn bad_payload(kind: &str, variant: &str, ctx: &Ctx) -> Vec<u8> {
+        corrupt(&Self::encode(kind, ctx), variant)
+    }
     async fn raw_send(&mut self, kind: &str, ctx: &Ctx) -> OpOut;
     async fn raw_recv(&mut self) -> Result<&'static str, String>;
     async fn op(&mut self, name: &str, ctx: &Ctx) -> OpOut;
+}
+
+/// Generic corruptions of a well-formed message `[label, field1, ...]` (built with the independent
+/// CBOR kit, the result is again one well-formed CBOR item, so a decoder never waits for more bytes).
+pub fn corrupt(valid: &[u8], variant: &str) -> Vec<u8> {
+    use pvkit::cborx;
+    let mut node = cborx::read(valid).expect("harness message is one CBOR item");
+    match variant {
+        // the first payload field gets another CBOR major type
+        "field1-type" => {
+            let items = node.as_array_mut().expect("messages are arrays");
+            assert!(items.len() >= 2, "harness: message without a payload field");
+            items[1] = if items[1].as_text().is_some() { cborx::uint(7) } else { cborx::text("bad") };
+        }
+        v => panic!("harness: unknown corruption {v}"),
+    }
+    cborx::write(&node)
+}
+
+/// An injected peer message: the representative payload of its kind, or a corrupted one.
+#[derive(Debug, Clone, Copy)]
+pub struct Inj {
+    pub kind: &'static str,
+    pub bad: Option<&'static str>,
+}
+
+fn plain(kinds: &[&'static str]) -> Vec<Inj> {
+    kinds.iter().map(|k| Inj { kind: k, bad: None }).collect()
 }
 
 // ------------------------------------------------------------------------------------------ rig
@@ -83,6 +171,10 @@ pub struct Rig<A: Agent> {
     sentinel: Sentinel,
     running: Option<net::Running>,
     pub ctx: Ctx,
+    /// bytes the raw peer already took from the wire while answering a reactive call
+    stash: Vec<u8>,
+    /// pallas methods called on this agent so far
+    pub used: BTreeSet<&'static str>,
 }
 
 impl<A: Agent> Rig<A> {
@@ -94,7 +186,15 @@ impl<A: Agent> Rig<A> {
         };
         let sentinel = Sentinel::subscribe(&mut pa, &mut pb);
         let running = net::Running(pa.spawn(), pb.spawn());
-        Ok(Rig { agent: A::new(agent_ch), raw: RawPeer::new(raw_ch), sentinel, running: Some(running), ctx: Ctx { cookie: 0x5a17 } })
+        Ok(Rig {
+            agent: A::new(agent_ch),
+            raw: RawPeer::new(raw_ch),
+            sentinel,
+            running: Some(running),
+            ctx: Ctx { cookie: 0x5a17 },
+            stash: vec![],
+            used: BTreeSet::new(),
+        })
     }
 
     pub async fn stop(mut self) {
@@ -103,15 +203,18 @@ impl<A: Agent> Rig<A> {
         }
     }
 
-    pub async fn inject(&mut self, kind: &str) -> Result<(), Trouble> {
-        let bytes = A::encode(kind, &self.ctx);
+    pub async fn inject(&mut self, m: &Inj) -> Result<(), Trouble> {
+        let bytes = match m.bad {
+            None => A::encode(m.kind, &self.ctx),
+            Some(v) => A::bad_payload(m.kind, v, &self.ctx),
+        };
         self.raw.send(&bytes).await
     }
 
     /// Everything the agent has put on the wire so far (deterministic, see `net::Sentinel`).
     pub async fn wire(&mut self) -> Result<Vec<&'static str>, Trouble> {
         self.sentinel.flush().await?;
-        let mut bytes = vec![];
+        let mut bytes = std::mem::take(&mut self.stash);
         while let Some(c) = self.raw.pending().await {
             bytes.extend(c);
         }
@@ -139,6 +242,20 @@ impl<A: Agent> Rig<A> {
         }
         Ok(kinds)
     }
+
+    /// (state, has_agency, is_done) as the agent reports them right now
+    fn observe(&mut self) -> Observed {
+        self.used.insert("state");
+        let agency = self.agent.has_agency();
+        let done = self.agent.is_done();
+        if agency.is_some() {
+            self.used.insert("has_agency");
+        }
+        if done.is_some() {
+            self.used.insert("is_done");
+        }
+        Observed { state: self.agent.state(), agency, done }
+    }
 }
 
 // --------------------------------------------------------------------------------------- oracle
@@ -147,172 +264,341 @@ fn sig<A: Agent>(state: &str, msg: &str, what: &str) -> String {
     format!("c23:{}:{}:{}:{}:{}", A::proto().name, A::ROLE.name(), state, msg, what)
 }
 
-/// Spec simulation of an op: (legal?, spec state after the last legal step, messages the legal
-/// Send steps put on the wire, index of the first illegal step, spec state at that step).
-struct Sim {
-    legal: bool,
-    end: &'static str,
-    sends: Vec<&'static str>,
-    /// (step index, spec state at that step)
-    trace: Vec<&'static str>,
-    bad: Option<usize>,
+#[derive(Debug, Clone, Copy)]
+pub struct Observed {
+    pub state: &'static str,
+    pub agency: Option<bool>,
+    pub done: Option<bool>,
 }
 
-fn step_msg(op: &OpDef, inject: &[&'static str], idx: usize) -> (&'static str, bool) {
-    let mut r = 0;
-    for (i, st) in op.steps.iter().enumerate() {
-        match st {
-            Step::Send(m) => {
-                if i == idx {
-                    return (m, true);
-                }
-            }
-            Step::Recv => {
-                if i == idx {
-                    return (inject.get(r).copied().unwrap_or("?"), false);
-                }
-                r += 1;
-            }
+/// The observers must agree with the specification table for the state the agent itself reports
+/// (whether that state is the right one is judged separately, with its own signature).
+fn judge_observers<A: Agent>(o: &Observed, after: &str) -> Result<(), Fail> {
+    let p = A::proto();
+    let Some(spec_state) = p.states.iter().find(|s| p.pallas_state(s) == o.state) else {
+        return Ok(());
+    };
+    if let Some(h) = o.agency {
+        let expected = p.agency(spec_state) == Some(A::ROLE);
+        if h != expected {
+            return Err(Fail {
+                sig: sig::<A>(o.state, "has_agency", "observer"),
+                msg: format!(
+                    "{} {}: after {after}, state() = {} and has_agency() = {h}; the spec gives the agency in {} to {}",
+                    A::NAME,
+                    A::ROLE.name(),
+                    o.state,
+                    spec_state,
+                    p.agency(spec_state).map(|r| r.name()).unwrap_or("nobody")
+                ),
+            });
         }
     }
-    ("?", true)
+    if let Some(d) = o.done {
+        let expected = *spec_state == "Done";
+        if d != expected {
+            return Err(Fail {
+                sig: sig::<A>(o.state, "is_done", "observer"),
+                msg: format!("{} {}: after {after}, state() = {} and is_done() = {d}", A::NAME, A::ROLE.name(), o.state),
+            });
+        }
+    }
+    Ok(())
+}
+
+/// one message event of the spec simulation of an op
+#[derive(Debug, Clone, Copy)]
+struct Ev {
+    /// spec state in which the message is sent / received
+    state: &'static str,
+    msg: &'static str,
+    send: bool,
+}
+
+/// Spec simulation of an op with the given injected messages.
+struct Sim {
+    /// every event is a spec edge and the method runs to its end (or to an early `Stop`)
+    legal: bool,
+    /// the method consumed a spec-legal message it refuses (`Next::Refuse`)
+    refused: bool,
+    /// the method would read more messages than were injected (a harness table error)
+    starved: bool,
+    /// spec state after the last legal event
+    end: &'static str,
+    /// messages the legal Send steps put on the wire
+    sends: Vec<&'static str>,
+    evs: Vec<Ev>,
+    /// index of the illegal event
+    bad: Option<usize>,
 }
 
 fn simulate<A: Agent>(from: &'static str, op: &OpDef, inject: &[&'static str]) -> Sim {
     let p = A::proto();
-    let mut cur = from;
-    let mut sends = vec![];
-    let mut trace = vec![];
-    for i in 0..op.steps.len() {
-        trace.push(cur);
-        let (m, is_send) = step_msg(op, inject, i);
-        let by = if is_send { A::ROLE } else { A::ROLE.other() };
-        match p.legal(cur, m, by) {
-            Some(to) => {
-                if is_send {
-                    sends.push(m);
+    let mut sim = Sim { legal: false, refused: false, starved: false, end: from, sends: vec![], evs: vec![], bad: None };
+    let mut pc = 0;
+    let mut r = 0;
+    while pc < op.steps.len() {
+        match op.steps[pc] {
+            Step::Send(m) => {
+                sim.evs.push(Ev { state: sim.end, msg: m, send: true });
+                match p.legal(sim.end, m, A::ROLE) {
+                    Some(to) => {
+                        sim.sends.push(m);
+                        sim.end = to;
+                        pc += 1;
+                    }
+                    None => {
+                        sim.bad = Some(sim.evs.len() - 1);
+                        return sim;
+                    }
                 }
-                cur = to;
             }
-            None => return Sim { legal: false, end: cur, sends, trace, bad: Some(i) },
+            st => {
+                let Some(m) = inject.get(r).copied() else {
+                    sim.starved = true;
+                    return sim;
+                };
+                r += 1;
+                sim.evs.push(Ev { state: sim.end, msg: m, send: false });
+                match p.legal(sim.end, m, A::ROLE.other()) {
+                    Some(to) => sim.end = to,
+                    None => {
+                        sim.bad = Some(sim.evs.len() - 1);
+                        return sim;
+                    }
+                }
+                let next = match st {
+                    Step::RecvMap(map) => map.iter().find(|(k, _)| *k == m).map(|x| x.1).unwrap_or(Next::Refuse),
+                    _ => Next::Cont,
+                };
+                match next {
+                    Next::Cont => pc += 1,
+                    Next::Again => {}
+                    Next::Stop => break,
+                    Next::Refuse => {
+                        sim.refused = true;
+                        return sim;
+                    }
+                }
+            }
         }
     }
-    Sim { legal: true, end: cur, sends, trace, bad: None }
+    sim.legal = true;
+    sim
+}
+
+/// Every sequence of peer messages the method reads if each of its sends succeeds (loops bounded).
+fn flows(p: &Proto, op: &OpDef) -> Vec<Vec<&'static str>> {
+    const MAX_AGAIN: usize = 2;
+    fn rec(p: &Proto, steps: &[Step], mut pc: usize, again: usize, prefix: &mut Vec<&'static str>, out: &mut Vec<Vec<&'static str>>) {
+        while pc < steps.len() && matches!(steps[pc], Step::Send(_)) {
+            pc += 1;
+        }
+        if pc >= steps.len() {
+            out.push(prefix.clone());
+            return;
+        }
+        for m in p.messages {
+            prefix.push(m);
+            let next = match steps[pc] {
+                Step::RecvMap(map) => map.iter().find(|(k, _)| k == m).map(|x| x.1).unwrap_or(Next::Refuse),
+                _ => Next::Cont,
+            };
+            match next {
+                Next::Cont => rec(p, steps, pc + 1, 0, prefix, out),
+                Next::Again => {
+                    if again < MAX_AGAIN {
+                        rec(p, steps, pc, again + 1, prefix, out)
+                    }
+                }
+                Next::Stop | Next::Refuse => out.push(prefix.clone()),
+            }
+            prefix.pop();
+        }
+    }
+    let mut out = vec![];
+    rec(p, op.steps, 0, 0, &mut vec![], &mut out);
+    out
 }
 
 pub struct Exec {
     pub out: OpOut,
     pub sent: Vec<&'static str>,
-    pub state: &'static str,
+    pub seen: Observed,
 }
 
-async fn exec_op<A: Agent>(rig: &mut Rig<A>, op: &OpDef, inject: &[&'static str]) -> Result<Exec, Trouble> {
-    for m in inject {
-        rig.inject(m).await?;
-    }
-    let out = net::within("a high-level agent call", rig.agent.op(op.name, &rig.ctx)).await?;
+async fn exec_op<A: Agent>(rig: &mut Rig<A>, op: &OpDef, inject: &[Inj]) -> Result<Exec, Trouble> {
+    rig.used.insert(op.method());
+    let out = if op.reactive {
+        let ctx = Ctx { cookie: rig.ctx.cookie };
+        let Rig { agent, raw, stash, ctx: live, .. } = rig;
+        let call = net::within("a high-level agent call", agent.op(op.name, &ctx));
+        // the peer follows the method: after each message the agent sends it learns the cookie, then answers
+        let peer = async {
+            let mut r = 0;
+            for st in op.steps {
+                match st {
+                    Step::Send(_) => match raw.recv().await {
+                        Ok(RawRecv::Item(b)) => {
+                            if let Some(c) = A::decode(&b).and_then(|s| s.cookie) {
+                                live.cookie = c;
+                            }
+                            stash.extend(b);
+                        }
+                        Ok(RawRecv::Malformed(b)) => {
+                            stash.extend(b);
+                            break;
+                        }
+                        Err(_) => break,
+                    },
+                    _ => {
+                        let Some(m) = inject.get(r) else { break };
+                        r += 1;
+                        let bytes = match m.bad {
+                            None => A::encode(m.kind, live),
+                            Some(v) => A::bad_payload(m.kind, v, live),
+                        };
+                        if raw.send(&bytes).await.is_err() {
+                            break;
+                        }
+                    }
+                }
+            }
+            std::future::pending::<()>().await
+        };
+        tokio::select! {
+            biased;
+            out = call => out?,
+            _ = peer => unreachable!(),
+        }
+    } else {
+        for m in inject {
+            rig.inject(m).await?;
+        }
+        net::within("a high-level agent call", rig.agent.op(op.name, &rig.ctx)).await?
+    };
     let sent = rig.wire().await?;
-    Ok(Exec { out, sent, state: rig.agent.state() })
+    Ok(Exec { out, sent, seen: rig.observe() })
+}
+
+#[derive(Debug, Clone, Copy, PartialEq, Eq)]
+enum Verdict {
+    Agrees,
+    /// Ok although the send is illegal, but nothing was sent and the state did not move (tolerated)
+    Noop,
+    /// rejection of an exchange the method is not meant for
+    NotMeant,
+    Unjudged,
+    /// method-level refusal of a spec-legal message: wire and state judged, result not
+    Refused,
+    Starved,
 }
 
 /// `full`: the op is meant for this state, so a legal exchange must be accepted; otherwise only
 /// "never accepts an illegal exchange, never changes state on rejection" is asserted.
-fn judge_op<A: Agent>(from: &'static str, op: &OpDef, inject: &[&'static str], ex: &Exec, full: bool) -> Result<bool, Fail> {
+fn judge_op<A: Agent>(from: &'static str, op: &OpDef, inject: &[&'static str], ex: &Exec, full: bool) -> Result<Verdict, Fail> {
     let p = A::proto();
     let sim = simulate::<A>(from, op, inject);
     let here = format!("{} {} in {from}: {}({})", A::NAME, A::ROLE.name(), op.name, inject.join(","));
     let accepted = matches!(ex.out, OpOut::Accepted);
+    let state = ex.seen.state;
     // an unjudged (state, message) pair anywhere in the exchange: skip
-    for i in 0..op.steps.len().min(sim.trace.len()) {
-        if p.is_unjudged(sim.trace[i], step_msg(op, inject, i).0) {
-            return Ok(false);
+    if sim.evs.iter().any(|e| p.is_unjudged(e.state, e.msg)) {
+        return Ok(Verdict::Unjudged);
+    }
+    if sim.starved || sim.evs.is_empty() {
+        return Ok(Verdict::Starved);
+    }
+    let role_of = |e: &Ev| if e.send { A::ROLE.name() } else { A::ROLE.other().name() };
+    let dir = |e: &Ev| if e.send { "send" } else { "recv" };
+    let last_ev = sim.evs.len() - 1;
+    let wire_and_state = |verdict: Verdict| -> Result<Verdict, Fail> {
+        if ex.sent != sim.sends {
+            let e = &sim.evs[sim.bad.unwrap_or(last_ev)];
+            return Err(Fail {
+                sig: sig::<A>(e.state, e.msg, "send"),
+                msg: format!("{here}: the wire shows {:?}, the spec exchange sends {:?}", ex.sent, sim.sends),
+            });
         }
+        if state != p.pallas_state(sim.end) {
+            // the last legal event is the one whose next state is wrong
+            let last = match sim.bad {
+                Some(0) => 0,
+                Some(i) => i - 1,
+                None => last_ev,
+            };
+            let e = &sim.evs[last];
+            return Err(Fail {
+                sig: sig::<A>(e.state, e.msg, "next-state"),
+                msg: format!("{here}: state() = {state} afterwards, the spec says {}", sim.end),
+            });
+        }
+        judge_observers::<A>(&ex.seen, &here)?;
+        Ok(verdict)
+    };
+    if sim.refused {
+        return wire_and_state(Verdict::Refused);
     }
     if accepted && !sim.legal {
-        let i = sim.bad.unwrap();
-        let (m, is_send) = step_msg(op, inject, i);
+        let e = &sim.evs[sim.bad.unwrap()];
         // tolerated: Ok, but nothing illegal was sent and the state did not move past the legal prefix
-        let noop = is_send && ex.sent == sim.sends && ex.state == p.pallas_state(sim.end);
+        let noop = e.send && ex.sent == sim.sends && state == p.pallas_state(sim.end);
         if noop {
-            return Ok(true);
+            judge_observers::<A>(&ex.seen, &here)?;
+            return Ok(Verdict::Noop);
         }
         return Err(Fail {
-            sig: sig::<A>(sim.trace[i], m, if is_send { "send" } else { "recv" }),
-            msg: format!("{here}: accepted although the spec has no edge ({}, {m}) for the {}; wire {:?}, state() = {}",
-                sim.trace[i], if is_send { A::ROLE.name() } else { A::ROLE.other().name() }, ex.sent, ex.state),
+            sig: sig::<A>(e.state, e.msg, dir(e)),
+            msg: format!("{here}: accepted although the spec has no edge ({}, {}) for the {}; wire {:?}, state() = {state}", e.state, e.msg, role_of(e), ex.sent),
         });
     }
     if !accepted && sim.legal {
         if !full {
             // rejection allowed; the state must not have moved
-            if ex.state != p.pallas_state(from) && op.steps.len() == 1 {
-                let (m, is_send) = step_msg(op, inject, 0);
+            if state != p.pallas_state(from) && op.steps.len() == 1 {
+                let e = &sim.evs[0];
                 return Err(Fail {
-                    sig: sig::<A>(from, m, if is_send { "send" } else { "recv" }),
-                    msg: format!("{here}: rejected ({:?}) but state() moved to {}", ex.out, ex.state),
+                    sig: sig::<A>(from, e.msg, dir(e)),
+                    msg: format!("{here}: rejected ({:?}) but state() moved to {state}", ex.out),
                 });
             }
-            return Ok(false);
+            judge_observers::<A>(&ex.seen, &here)?;
+            return Ok(Verdict::NotMeant);
         }
-        // which step failed: the one after the last message seen on the wire
+        // which event failed: the one after the last message seen on the wire
         let k = ex.sent.len();
         let mut sends_seen = 0;
-        let mut idx = op.steps.len() - 1;
-        for (i, st) in op.steps.iter().enumerate() {
-            match st {
-                Step::Send(_) => {
-                    if sends_seen == k {
-                        idx = i;
-                        break;
-                    }
-                    sends_seen += 1;
+        let mut idx = last_ev;
+        for (i, e) in sim.evs.iter().enumerate() {
+            if e.send {
+                if sends_seen == k {
+                    idx = i;
+                    break;
                 }
-                Step::Recv => {
-                    if sends_seen == k && op.steps[i..].iter().all(|s| matches!(s, Step::Recv)) {
-                        idx = i;
-                        break;
-                    }
-                }
+                sends_seen += 1;
+            } else if sends_seen == k && sim.evs[i..].iter().all(|x| !x.send) {
+                idx = i;
+                break;
             }
         }
-        let (m, is_send) = step_msg(op, inject, idx);
+        let e = &sim.evs[idx];
         return Err(Fail {
-            sig: sig::<A>(sim.trace[idx], m, if is_send { "send" } else { "recv" }),
-            msg: format!("{here}: rejected ({:?}) although the spec has the edge ({}, {m}); wire {:?}, state() = {}",
-                ex.out, sim.trace[idx], ex.sent, ex.state),
+            sig: sig::<A>(e.state, e.msg, dir(e)),
+            msg: format!("{here}: rejected ({:?}) although the spec has the edge ({}, {}); wire {:?}, state() = {state}", ex.out, e.state, e.msg, ex.sent),
         });
     }
     // result agrees with the spec: wire and state
-    if ex.sent != sim.sends {
-        let i = sim.bad.unwrap_or(op.steps.len() - 1);
-        let (m, _) = step_msg(op, inject, i);
-        return Err(Fail {
-            sig: sig::<A>(sim.trace[i.min(sim.trace.len() - 1)], m, "send"),
-            msg: format!("{here}: the wire shows {:?}, the spec exchange sends {:?}", ex.sent, sim.sends),
-        });
-    }
-    if ex.state != p.pallas_state(sim.end) {
-        // the last legal step is the one whose next state is wrong
-        let last = match sim.bad {
-            Some(0) | None if !sim.legal => 0,
-            Some(i) => i - 1,
-            None => op.steps.len() - 1,
-        };
-        let (m, _) = step_msg(op, inject, last);
-        return Err(Fail {
-            sig: sig::<A>(sim.trace[last.min(sim.trace.len() - 1)], m, "next-state"),
-            msg: format!("{here}: state() = {} afterwards, the spec says {}", ex.state, sim.end),
-        });
-    }
-    Ok(false)
+    wire_and_state(Verdict::Agrees)
 }
 
 async fn test_raw_send<A: Agent>(rig: &mut Rig<A>, from: &'static str, m: &'static str) -> Result<Result<(), Fail>, Trouble> {
     let p = A::proto();
     let before = rig.agent.state();
+    rig.used.insert("send_message");
     let out = net::within("send_message", rig.agent.raw_send(m, &rig.ctx)).await?;
     let sent = rig.wire().await?;
-    let after = rig.agent.state();
+    let seen = rig.observe();
+    let after = seen.state;
     let legal = p.legal_coarse(from, m, A::ROLE);
     let here = format!("{} {} in {from}: send_message({m})", A::NAME, A::ROLE.name());
     let fail = |what: String| Ok(Err(Fail { sig: sig::<A>(from, m, "send"), msg: format!("{here}: {what}") }));
@@ -336,15 +622,17 @@ async fn test_raw_send<A: Agent>(rig: &mut Rig<A>, from: &'static str, m: &'stat
     if after != before {
         return fail(format!("state() changed from {before} to {after} in a low-level send"));
     }
-    Ok(Ok(()))
+    Ok(judge_observers::<A>(&seen, &here))
 }
 
 async fn test_raw_recv<A: Agent>(rig: &mut Rig<A>, from: &'static str, m: &'static str) -> Result<Result<(), Fail>, Trouble> {
     let p = A::proto();
     let before = rig.agent.state();
-    rig.inject(m).await?;
+    rig.inject(&Inj { kind: m, bad: None }).await?;
+    rig.used.insert("recv_message");
     let out = net::within("recv_message", rig.agent.raw_recv()).await?;
-    let after = rig.agent.state();
+    let seen = rig.observe();
+    let after = seen.state;
     let legal = p.legal_coarse(from, m, A::ROLE.other());
     let here = format!("{} {} in {from}: recv_message() after the peer sent {m}", A::NAME, A::ROLE.name());
     let fail = |what: String| Ok(Err(Fail { sig: sig::<A>(from, m, "recv"), msg: format!("{here}: {what}") }));
@@ -364,7 +652,7 @@ async fn test_raw_recv<A: Agent>(rig: &mut Rig<A>, from: &'static str, m: &'stat
     if after != before {
         return fail(format!("state() changed from {before} to {after} in a low-level receive"));
     }
-    Ok(Ok(()))
+    Ok(judge_observers::<A>(&seen, &here))
 }
 
 // ------------------------------------------------------------------------- reachability / paths
@@ -376,46 +664,77 @@ pub struct Move {
     pub to: &'static str,
 }
 
-fn injections(p: &Proto, n: usize) -> Vec<Vec<&'static str>> {
-    let mut out: Vec<Vec<&'static str>> = vec![vec![]];
-    for _ in 0..n {
-        out = out.into_iter().flat_map(|v| p.messages.iter().map(move |m| { let mut w = v.clone(); w.push(*m); w })).collect();
-    }
-    out
-}
-
-fn n_recv(op: &OpDef) -> usize {
-    op.steps.iter().filter(|s| matches!(s, Step::Recv)).count()
+/// legal moves of one state; `groups`: indices of moves that are the same exchange in the spec
+/// (same steps, same injected messages), so that walks choose an exchange first and a method second
+pub struct MoveSet {
+    pub moves: Vec<Move>,
+    pub groups: Vec<Vec<usize>>,
 }
 
 /// legal moves available to the harness in spec state `s` (ops meant for `s`, legal injections)
-pub fn moves<A: Agent>(s: &'static str) -> Vec<Move> {
+fn compute_moves<A: Agent>(s: &'static str) -> MoveSet {
     let p = A::proto();
-    let mut out = vec![];
+    let mut moves = vec![];
     for (i, op) in A::OPS.iter().enumerate() {
         if !op.from.is_empty() && !op.from.contains(&s) {
             continue;
         }
-        for inj in injections(p, n_recv(op)) {
+        for inj in flows(p, op) {
             let sim = simulate::<A>(s, op, &inj);
-            if sim.legal && !(0..op.steps.len()).any(|k| p.is_unjudged(sim.trace[k], step_msg(op, &inj, k).0)) {
-                out.push(Move { op: i, inject: inj, to: sim.end });
+            if sim.legal && !sim.evs.is_empty() && !sim.evs.iter().any(|e| p.is_unjudged(e.state, e.msg)) {
+                moves.push(Move { op: i, inject: inj, to: sim.end });
             }
         }
     }
-    out
+    let mut groups: Vec<Vec<usize>> = vec![];
+    for (i, m) in moves.iter().enumerate() {
+        let same = |g: &Vec<usize>| {
+            let o = &moves[g[0]];
+            A::OPS[o.op].steps == A::OPS[m.op].steps && o.inject == m.inject && o.to == m.to
+        };
+        match groups.iter_mut().find(|g| same(g)) {
+            Some(g) => g.push(i),
+            None => groups.push(vec![i]),
+        }
+    }
+    MoveSet { moves, groups }
+}
+
+type Paths = Vec<(&'static str, Vec<Move>)>;
+
+#[derive(Default)]
+struct Cache {
+    moves: HashMap<(&'static str, &'static str), Arc<MoveSet>>,
+    paths: HashMap<&'static str, Arc<Paths>>,
+}
+
+fn cache() -> &'static Mutex<Cache> {
+    static C: OnceLock<Mutex<Cache>> = OnceLock::new();
+    C.get_or_init(Default::default)
+}
+
+pub fn moves<A: Agent>(s: &'static str) -> Arc<MoveSet> {
+    if let Some(m) = cache().lock().unwrap().moves.get(&(A::NAME, s)) {
+        return m.clone();
+    }
+    let m = Arc::new(compute_moves::<A>(s));
+    cache().lock().unwrap().moves.insert((A::NAME, s), m.clone());
+    m
 }
 
 /// shortest sequences of moves from the initial state (BFS, single-step ops preferred)
-pub fn paths<A: Agent>() -> Vec<(&'static str, Vec<Move>)> {
+pub fn paths<A: Agent>() -> Arc<Paths> {
+    if let Some(p) = cache().lock().unwrap().paths.get(A::NAME) {
+        return p.clone();
+    }
     let p = A::proto();
-    let mut found: Vec<(&'static str, Vec<Move>)> = vec![(p.initial, vec![])];
+    let mut found: Paths = vec![(p.initial, vec![])];
     let mut frontier = vec![p.initial];
     while !frontier.is_empty() {
         let mut next = vec![];
         for s in frontier {
             let base = found.iter().find(|(t, _)| *t == s).unwrap().1.clone();
-            let mut ms = moves::<A>(s);
+            let mut ms = moves::<A>(s).moves.clone();
             ms.sort_by_key(|m| A::OPS[m.op].steps.len());
             for m in ms {
                 if found.iter().all(|(t, _)| *t != m.to) {
@@ -429,14 +748,20 @@ pub fn paths<A: Agent>() -> Vec<(&'static str, Vec<Move>)> {
         }
         frontier = next;
     }
+    let found = Arc::new(found);
+    cache().lock().unwrap().paths.insert(A::NAME, found.clone());
     found
 }
 
 async fn walk_prefix<A: Agent>(rig: &mut Rig<A>, path: &[Move]) -> Result<Result<(), Fail>, Trouble> {
     let mut cur = A::proto().initial;
+    let first = rig.observe();
+    if let Err(f) = judge_observers::<A>(&first, "new()") {
+        return Ok(Err(f));
+    }
     for m in path {
         let op = &A::OPS[m.op];
-        let ex = exec_op(rig, op, &m.inject).await?;
+        let ex = exec_op(rig, op, &plain(&m.inject)).await?;
         if let Err(f) = judge_op::<A>(cur, op, &m.inject, &ex, true) {
             return Ok(Err(f));
         }
@@ -471,7 +796,7 @@ pub fn triples<A: Agent>() -> (Vec<Triple>, Vec<&'static str>) {
         op: op.to_string(),
         msgs: msgs.into_iter().map(String::from).collect(),
     };
-    for (s, _) in &reach {
+    for (s, _) in reach.iter() {
         for m in p.messages {
             if A::RAW_SEND {
                 out.push(t(s, "raw-send", "", vec![m]));
@@ -485,7 +810,7 @@ pub fn triples<A: Agent>() -> (Vec<Triple>, Vec<&'static str>) {
             if !meant && (op.steps.len() > 1 || op.only_from) {
                 continue;
             }
-            for inj in injections(p, n_recv(op)) {
+            for inj in flows(p, op) {
                 out.push(t(s, "op", op.name, inj));
             }
         }
@@ -498,7 +823,13 @@ fn intern(p: &Proto, name: &str) -> Option<&'static str> {
     p.messages.iter().chain(p.states.iter()).find(|m| **m == name).copied()
 }
 
-async fn run_triple_async<A: Agent>(t: &Triple) -> Result<Result<(bool, bool), Fail>, Trouble> {
+struct TripleOut {
+    rare: bool,
+    verdict: Verdict,
+    used: BTreeSet<&'static str>,
+}
+
+async fn run_triple_async<A: Agent>(t: &Triple) -> Result<Result<TripleOut, Fail>, Trouble> {
     let p = A::proto();
     let Some(state) = intern(p, &t.state) else { return Err(Trouble::Io(format!("unknown state {}", t.state))) };
     let msgs: Option<Vec<&'static str>> = t.msgs.iter().map(|m| intern(p, m)).collect();
@@ -508,26 +839,33 @@ async fn run_triple_async<A: Agent>(t: &Triple) -> Result<Result<(bool, bool), F
         return Err(Trouble::Io(format!("state {state} is not reachable through the agent's API")));
     };
     let mut rig = Rig::<A>::new()?;
-    let res = async {
+    let res: Result<Result<(bool, Verdict), Fail>, Trouble> = async {
         if let Err(f) = walk_prefix(&mut rig, path).await? {
             return Ok(Err(f));
         }
         match t.mode.as_str() {
-            "raw-send" => Ok(test_raw_send(&mut rig, state, msgs[0]).await?.map(|_| (!p.legal_coarse(state, msgs[0], A::ROLE) || !p.happy.contains(&msgs[0]), false))),
-            "raw-recv" => Ok(test_raw_recv(&mut rig, state, msgs[0]).await?.map(|_| (!p.legal_coarse(state, msgs[0], A::ROLE.other()) || !p.happy.contains(&msgs[0]), false))),
+            "raw-send" => Ok(test_raw_send(&mut rig, state, msgs[0]).await?.map(|_| (!p.legal_coarse(state, msgs[0], A::ROLE) || !p.happy.contains(&msgs[0]), Verdict::Agrees))),
+            "raw-recv" => Ok(test_raw_recv(&mut rig, state, msgs[0]).await?.map(|_| (!p.legal_coarse(state, msgs[0], A::ROLE.other()) || !p.happy.contains(&msgs[0]), Verdict::Agrees))),
             _ => {
                 let Some(op) = A::OPS.iter().find(|o| o.name == t.op) else { return Err(Trouble::Io(format!("unknown op {}", t.op))) };
                 let meant = op.from.is_empty() || op.from.contains(&state);
-                let ex = exec_op(&mut rig, op, &msgs).await?;
+                let ex = exec_op(&mut rig, op, &plain(&msgs)).await?;
                 let sim = simulate::<A>(state, op, &msgs);
-                let rare = !sim.legal || (0..op.steps.len()).any(|k| !p.happy.contains(&step_msg(op, &msgs, k).0));
-                Ok(judge_op::<A>(state, op, &msgs, &ex, meant).map(|noop| (rare, noop)))
+                let rare = !sim.legal || sim.evs.iter().any(|e| !p.happy.contains(&e.msg));
+                Ok(judge_op::<A>(state, op, &msgs, &ex, meant).map(|v| (rare, v)))
             }
         }
     }
     .await;
+    let used = std::mem::take(&mut rig.used);
     rig.stop().await;
-    res
+    res.map(|r| r.map(|(rare, verdict)| TripleOut { rare, verdict, used }))
+}
+
+fn note_used<A: Agent>(obs: &mut Obs, used: &BTreeSet<&'static str>) {
+    for m in used {
+        obs.class(format!("m:{}:{m}", A::NAME));
+    }
 }
 
 fn run_triple<A: Agent>(s: &Session, t: &Triple, obs: &mut Obs) -> Result<(), Fail> {
@@ -542,12 +880,16 @@ fn run_triple<A: Agent>(s: &Session, t: &Triple, obs: &mut Obs) -> Result<(), Fa
             Ok(())
         }
         Ok(Err(f)) => Err(f),
-        Ok(Ok((rare, noop))) => {
-            if rare {
+        Ok(Ok(o)) => {
+            note_used::<A>(obs, &o.used);
+            if o.rare {
                 obs.nontrivial();
             }
-            if noop {
-                obs.class(format!("tolerated:{}:{}:ok-without-sending-or-state-change", A::NAME, t.op));
+            match o.verdict {
+                Verdict::Noop => obs.class(format!("tolerated:{}:{}:ok-without-sending-or-state-change", A::NAME, t.op)),
+                Verdict::Refused => obs.class(format!("method-level-refusal:{}:{}", A::NAME, t.op)),
+                Verdict::Starved => obs.class("harness:op-table-reads-more-than-injected"),
+                _ => {}
             }
             Ok(())
         }
@@ -567,13 +909,17 @@ fn walk() -> impl Strategy<Value = Walk> {
     (any::<u16>(), prop::collection::vec((0u8..8, any::<u16>()), 1..=40)).prop_map(|(agent, steps)| Walk { agent, steps })
 }
 
-async fn run_walk_async<A: Agent>(w: &Walk) -> Result<Result<(usize, usize), Fail>, Trouble> {
+async fn run_walk_async<A: Agent>(w: &Walk) -> Result<Result<(usize, usize, BTreeSet<&'static str>), Fail>, Trouble> {
     let p = A::proto();
     let mut rig = Rig::<A>::new()?;
-    let res = async {
+    let res: Result<Result<(usize, usize), Fail>, Trouble> = async {
         let mut cur = p.initial;
         let mut n_legal = 0;
         let mut n_illegal = 0;
+        let first = rig.observe();
+        if let Err(f) = judge_observers::<A>(&first, "new()") {
+            return Ok(Err(f));
+        }
         for (kind, choice) in &w.steps {
             if rig.agent.state() != p.pallas_state(cur) {
                 break; // a known deviation moved the agent off the spec path
@@ -605,12 +951,14 @@ async fn run_walk_async<A: Agent>(w: &Walk) -> Result<Result<(usize, usize), Fai
                 }
                 _ => {
                     let ms = moves::<A>(cur);
-                    if ms.is_empty() {
+                    if ms.groups.is_empty() {
                         break;
                     }
-                    let m = &ms[pick_idx(*choice, ms.len())];
+                    // the exchange first, then one of the methods that perform it
+                    let g = &ms.groups[pick_idx(*choice, ms.groups.len())];
+                    let m = &ms.moves[g[*choice as usize % g.len()]];
                     let op = &A::OPS[m.op];
-                    let ex = exec_op(&mut rig, op, &m.inject).await?;
+                    let ex = exec_op(&mut rig, op, &plain(&m.inject)).await?;
                     if let Err(f) = judge_op::<A>(cur, op, &m.inject, &ex, true) {
                         return Ok(Err(f));
                     }
@@ -622,8 +970,9 @@ async fn run_walk_async<A: Agent>(w: &Walk) -> Result<Result<(usize, usize), Fai
         Ok(Ok((n_legal, n_illegal)))
     }
     .await;
+    let used = std::mem::take(&mut rig.used);
     rig.stop().await;
-    res
+    res.map(|r| r.map(|(a, b)| (a, b, used)))
 }
 
 fn run_walk<A: Agent>(s: &Session, w: &Walk, obs: &mut Obs) -> Result<(), Fail> {
@@ -638,11 +987,262 @@ fn run_walk<A: Agent>(s: &Session, w: &Walk, obs: &mut Obs) -> Result<(), Fail> 
             Ok(())
         }
         Ok(Err(f)) => Err(f),
-        Ok(Ok((legal, illegal))) => {
+        Ok(Ok((legal, illegal, _used))) => {
             if legal >= 4 && illegal >= 1 {
                 obs.nontrivial();
             }
             Ok(())
+        }
+    }
+}
+
+// ------------------------------------------------------------------------- payload-level refusals
+
+/// One payload case: a fresh agent is brought to `from`, then `via` is called (the low-level
+/// receive, or a high-level method whose sends up to its first receive are legal from `from`) and the
+/// peer's message of kind `kind` arrives with content `variant` ("valid": the control).
+#[derive(Debug, Clone, Serialize, Deserialize, PartialEq)]
+pub struct PayloadCase {
+    pub agent: String,
+    pub from: String,
+    pub via: String,
+    pub kind: String,
+    pub variant: String,
+}
+
+/// (spec state in which the op's first receive happens, messages sent before it), if the sends are legal
+fn first_recv<A: Agent>(from: &'static str, op: &OpDef) -> Option<(&'static str, Vec<&'static str>)> {
+    let p = A::proto();
+    let mut cur = from;
+    let mut sends = vec![];
+    for st in op.steps {
+        match st {
+            Step::Send(m) => {
+                cur = p.legal(cur, m, A::ROLE)?;
+                sends.push(*m);
+            }
+            _ => return Some((cur, sends)),
+        }
+    }
+    None
+}
+
+pub fn payload_cases<A: Agent>() -> Vec<PayloadCase> {
+    let p = A::proto();
+    let mut out = vec![];
+    let mut kinds: Vec<&'static str> = vec![];
+    for (k, _, _) in A::BAD {
+        if !kinds.contains(k) {
+            kinds.push(k);
+        }
+    }
+    let case = |from: &str, via: &str, kind: &str, variant: &str| PayloadCase {
+        agent: A::NAME.into(),
+        from: from.into(),
+        via: via.into(),
+        kind: kind.into(),
+        variant: variant.into(),
+    };
+    for (s, _) in paths::<A>().iter() {
+        if A::RAW_RECV {
+            for k in &kinds {
+                if p.legal(s, k, A::ROLE.other()).is_some() && !p.is_unjudged(s, k) {
+                    out.push(case(s, "raw-recv", k, "valid"));
+                    for (_, v, high_only) in A::BAD.iter().filter(|b| b.0 == *k) {
+                        if !high_only {
+                            out.push(case(s, "raw-recv", k, v));
+                        }
+                    }
+                }
+            }
+        }
+        for op in A::OPS {
+            if !(op.from.is_empty() || op.from.contains(s)) {
+                continue;
+            }
+            let Some((at, _)) = first_recv::<A>(s, op) else { continue };
+            for k in &kinds {
+                if p.legal(at, k, A::ROLE.other()).is_none() || p.is_unjudged(at, k) {
+                    continue;
+                }
+                // control only where the valid message completes the call
+                if op.n_recv() == 1 && !matches!(op.steps.last(), Some(Step::Send(_))) {
+                    out.push(case(s, op.name, k, "valid"));
+                }
+                for (_, v, _) in A::BAD.iter().filter(|b| b.0 == *k) {
+                    out.push(case(s, op.name, k, v));
+                }
+            }
+        }
+    }
+    out
+}
+
+async fn run_payload_async<A: Agent>(c: &PayloadCase) -> Result<Result<BTreeSet<&'static str>, Fail>, Trouble> {
+    let p = A::proto();
+    let Some(from) = intern(p, &c.from) else { return Err(Trouble::Io(format!("unknown state {}", c.from))) };
+    let Some(kind) = intern(p, &c.kind) else { return Err(Trouble::Io(format!("unknown message {}", c.kind))) };
+    let bad: Option<&'static str> = if c.variant == "valid" {
+        None
+    } else {
+        match A::BAD.iter().find(|b| b.0 == kind && b.1 == c.variant) {
+            Some(b) => Some(b.1),
+            None => return Err(Trouble::Io(format!("unknown payload variant {}", c.variant))),
+        }
+    };
+    let reach = paths::<A>();
+    let Some((_, path)) = reach.iter().find(|(s, _)| *s == from) else {
+        return Err(Trouble::Io(format!("state {from} is not reachable through the agent's API")));
+    };
+    let class = c.variant.split('+').next().unwrap_or("").to_string();
+    let mut rig = Rig::<A>::new()?;
+    let res: Result<Result<(), Fail>, Trouble> = async {
+        if let Err(f) = walk_prefix(&mut rig, path).await? {
+            return Ok(Err(f));
+        }
+        let inj = Inj { kind, bad };
+        // (accepted?, what the call said, wire, observers, state in which the message arrives, sends before it)
+        let (accepted, said, sent, seen, at, sends) = if c.via == "raw-recv" {
+            rig.inject(&inj).await?;
+            rig.used.insert("recv_message");
+            let out = net::within("recv_message", rig.agent.raw_recv()).await?;
+            let sent = rig.wire().await?;
+            (out.is_ok(), format!("{out:?}"), sent, rig.observe(), from, vec![])
+        } else {
+            let Some(op) = A::OPS.iter().find(|o| o.name == c.via) else { return Err(Trouble::Io(format!("unknown op {}", c.via))) };
+            let Some((at, sends)) = first_recv::<A>(from, op) else { return Err(Trouble::Io(format!("{} does not receive from {from}", c.via))) };
+            let ex = exec_op(&mut rig, op, &[inj]).await?;
+            if bad.is_none() {
+                // the control: the ordinary oracle
+                return Ok(judge_op::<A>(from, op, &[kind], &ex, true).map(|_| ()));
+            }
+            (matches!(ex.out, OpOut::Accepted), format!("{:?}", ex.out), ex.sent, ex.seen, at, sends)
+        };
+        let here = format!("{} {} in {from}: {} with a {kind} whose content is '{}'", A::NAME, A::ROLE.name(), c.via, c.variant);
+        if bad.is_none() {
+            if !accepted {
+                return Ok(Err(Fail { sig: sig::<A>(at, kind, "recv"), msg: format!("{here}: rejected ({said})") }));
+            }
+            return Ok(Ok(()));
+        }
+        if accepted {
+            return Ok(Err(Fail {
+                sig: sig::<A>(at, kind, &format!("payload:{class}:accepted")),
+                msg: format!("{here}: accepted; state() = {}", seen.state),
+            }));
+        }
+        if sent != sends {
+            return Ok(Err(Fail {
+                sig: sig::<A>(at, kind, &format!("payload:{class}:sent")),
+                msg: format!("{here}: refused ({said}), but the wire shows {:?} instead of {:?}", sent, sends),
+            }));
+        }
+        if seen.state != p.pallas_state(at) {
+            return Ok(Err(Fail {
+                sig: sig::<A>(at, kind, &format!("payload:{class}:state-changed")),
+                msg: format!("{here}: refused ({said}), yet state() moved from {} to {}", p.pallas_state(at), seen.state),
+            }));
+        }
+        Ok(judge_observers::<A>(&seen, &here))
+    }
+    .await;
+    let used = std::mem::take(&mut rig.used);
+    rig.stop().await;
+    res.map(|r| r.map(|_| used))
+}
+
+fn run_payload<A: Agent>(s: &Session, c: &PayloadCase, obs: &mut Obs) -> Result<(), Fail> {
+    let rt = net::rt_current();
+    let r = rt.block_on(run_payload_async::<A>(c));
+    drop(rt);
+    let class = c.variant.split('+').next().unwrap_or("");
+    obs.class(format!("payload:{}:{}:{}", A::NAME, c.kind, class));
+    match r {
+        Err(tr) => {
+            s.health(false, &format!("payload case {} {} {} {} {}: {tr}", c.agent, c.from, c.via, c.kind, c.variant));
+            obs.discard();
+            Ok(())
+        }
+        Ok(Err(f)) => Err(f),
+        Ok(Ok(used)) => {
+            note_used::<A>(obs, &used);
+            obs.nontrivial_if(c.variant != "valid");
+            Ok(())
+        }
+    }
+}
+
+// --------------------------------------------------------------------------- method coverage table
+
+/// names of the public functions of a pallas source file (`async_only`: only `pub async fn`), plus the
+/// functions the `block_query_*_args!` macros of the local-state query module generate
+fn scan_source(text: &str, async_only: bool) -> Vec<String> {
+    let mut out = vec![];
+    let mut in_macro_call = false;
+    for line in text.lines() {
+        let l = line.trim_start();
+        if l.starts_with("block_query_with_args! {") || l.starts_with("block_query_no_args! {") {
+            in_macro_call = true;
+            continue;
+        }
+        if in_macro_call {
+            if l.starts_with("#[") || l.is_empty() {
+                continue;
+            }
+            in_macro_call = false;
+            if let Some(name) = l.strip_suffix(',') {
+                if name.chars().all(|c| c.is_ascii_alphanumeric() || c == '_') {
+                    out.push(name.to_string());
+                }
+            }
+            continue;
+        }
+        let rest = l.strip_prefix("pub async fn ").or_else(|| if async_only { None } else { l.strip_prefix("pub fn ") });
+        if let Some(rest) = rest {
+            let name: String = rest.chars().take_while(|c| c.is_ascii_alphanumeric() || *c == '_').collect();
+            if !name.is_empty() && !rest.starts_with('$') {
+                out.push(name);
+            }
+        }
+    }
+    out
+}
+
+/// constructors / destructors: neither send, receive nor observe
+const NOT_PROTOCOL: &[&str] = &["new", "unwrap"];
+
+fn check_methods<A: Agent>(s: &Session) {
+    // 1. the hand-made table against the sources of the tree under test
+    let mut in_source: Vec<String> = vec![];
+    for (rel, async_only) in A::SOURCES {
+        let path = pvkit::session::repo_dir().join(rel);
+        match std::fs::read_to_string(&path) {
+            Ok(text) => in_source.extend(scan_source(&text, *async_only)),
+            Err(e) => s.health(false, &format!("{}: cannot read {} to compare the method table: {e}", A::NAME, path.display())),
+        }
+    }
+    for m in &in_source {
+        if !NOT_PROTOCOL.contains(&m.as_str()) && !A::METHODS.contains(&m.as_str()) {
+            s.health(false, &format!("{}: public method `{m}` of the sources is not in the harness' method table (add it to METHODS and OPS)", A::NAME));
+        }
+    }
+    for m in A::METHODS {
+        if !in_source.iter().any(|x| x == m) {
+            s.health(false, &format!("{}: method `{m}` of the harness' table is not a public method of the sources", A::NAME));
+        }
+    }
+    // 2. the adapter against the table
+    for op in A::OPS {
+        if !A::METHODS.contains(&op.method()) {
+            s.health(false, &format!("{}: op `{}` is not in the method table", A::NAME, op.name));
+        }
+    }
+    // 3. every method of the table was called in at least one evaluated case
+    if !s.replaying() {
+        for m in A::METHODS {
+            if s.class_count(&format!("m:{}:{m}", A::NAME)) == 0 {
+                s.health(false, &format!("{}: public method `{m}` was not called in any evaluated case", A::NAME));
+            }
         }
     }
 }
@@ -668,6 +1268,16 @@ macro_rules! all_triples {
             $( { let (t, u) = triples::<$a>(); all.extend(t); unreachable.extend(u.into_iter().map(|s| format!("{}:{}", <$a as Agent>::NAME, s))); } )*
             (all, unreachable)
         }
+        fn collect_payload_cases() -> Vec<PayloadCase> {
+            let mut all: Vec<PayloadCase> = vec![];
+            $( all.extend(payload_cases::<$a>()); )*
+            all
+        }
+        fn check_all_methods(s: &Session) -> usize {
+            let mut n = 0;
+            $( check_methods::<$a>(s); n += <$a as Agent>::METHODS.len(); )*
+            n
+        }
     };
 }
 for_agents! { all_triples }
@@ -677,6 +1287,11 @@ macro_rules! dispatch_triple {
         fn dispatch_triple(s: &Session, t: &Triple, obs: &mut Obs) -> Result<(), Fail> {
             $( if t.agent == <$a as Agent>::NAME { return run_triple::<$a>(s, t, obs); } )*
             s.health(false, &format!("unknown agent {}", t.agent));
+            Ok(())
+        }
+        fn dispatch_payload(s: &Session, c: &PayloadCase, obs: &mut Obs) -> Result<(), Fail> {
+            $( if c.agent == <$a as Agent>::NAME { return run_payload::<$a>(s, c, obs); } )*
+            s.health(false, &format!("unknown agent {}", c.agent));
             Ok(())
         }
     };
@@ -712,7 +1327,7 @@ fn keepalive_cookie_mismatch(s: &Session, delta: &u16, obs: &mut Obs) -> Result<
             let _ = rig.wire().await?; // learns the cookie the client put on the wire
             let before = rig.agent.state();
             rig.ctx.cookie = rig.ctx.cookie.wrapping_add(delta);
-            rig.inject("ResponseKeepAlive").await?;
+            rig.inject(&Inj { kind: "ResponseKeepAlive", bad: None }).await?;
             let ctx1 = Ctx { cookie: rig.ctx.cookie };
             let out = rig.agent.op("recv_keepalive_response", &ctx1).await;
             let ok = matches!(out, OpOut::Accepted);
@@ -757,17 +1372,31 @@ fn keepalive_cookie_mismatch(s: &Session, delta: &u16, obs: &mut Obs) -> Result<
 pub fn run(s: &Session) {
     s.set_rule(
         "triples: every (agent, reachable spec state, action) with action = low-level send of each message variant, low-level \
-         receive of each injected message variant, each high-level method with each combination of injected peer messages; \
+         receive of each injected message variant, each public high-level method with each sequence of injected peer messages the \
+         method can read (loops up to 2 repetitions); after every action has_agency()/is_done() are compared with the spec; \
          non-trivial = the action is illegal in that state or involves a message outside the protocol's usual exchange; \
+         payload-refusals: every (agent, state, receiving method or low-level receive, message kind legal there, content that \
+         must be refused); non-trivial = the content is not the valid control; \
          walks: random walks (<=40 steps) over the spec graph through high-level methods with interleaved illegal low-level \
          sends/receives; non-trivial = >=4 legal steps and >=1 illegal attempt",
     );
     s.assume("spec tables in src/spec.rs transcribe network-spec.pdf chapter 3; injected messages are encoded with the pallas codec of the same protocol (C22 judges the codecs)");
     s.assume("tx-monitor: pallas has one Busy state for the spec's three; low-level receive is judged with the three merged, high-level methods with the spec's states");
+    s.assume("a composite method that has consumed a spec-legal message it has no use for (fetch_single: empty batch, second block) may return anything; its state must be the spec state after that message");
+    s.assume("domain-level error values after a legal exchange (NoBlocks, IntersectionNotFound, AcquirePoint*, InvalidCbor of a typed query result) count as the exchange having been accepted");
     for p in crate::spec::ALL {
         if let Err(e) = p.check() {
             s.health(false, &format!("spec table inconsistent: {e}"));
             return;
+        }
+        // states that pallas merges must agree on who has the agency (the observers are judged per pallas state)
+        for (a, pa) in p.alias {
+            for (b, pb) in p.alias {
+                if pa == pb && p.agency(a) != p.agency(b) {
+                    s.health(false, &format!("spec table {}: merged states {a}/{b} differ in agency", p.name));
+                    return;
+                }
+            }
         }
     }
     let (all, unreachable) = collect_triples();
@@ -775,5 +1404,33 @@ pub fn run(s: &Session) {
     s.note("triples", serde_json::json!(all.len()));
     s.foreach("triples", all, true, |t, obs| dispatch_triple(s, t, obs));
     s.foreach("keepalive-cookie-mismatch", vec![0u16, 1, 2, 0x00ff, 0x0100, 0x8000, 0xffff], true, |d, obs| keepalive_cookie_mismatch(s, d, obs));
+    let payload = collect_payload_cases();
+    s.note("payload_cases", serde_json::json!(payload.len()));
+    s.foreach("payload-refusals", payload, true, |c, obs| dispatch_payload(s, c, obs));
     s.forall("walks", s.pick(60_000, 1_000_000), walk, |w, obs| dispatch_walk(s, w, obs));
+    let n = check_all_methods(s);
+    s.note("public_methods_in_table", serde_json::json!(n));
+    if !s.replaying() {
+        s.health(s.class_count("harness:op-table-reads-more-than-injected") == 0, "an op table reads more peer messages than its flows inject");
+        for (a, m, k) in PAYLOAD_CLASSES {
+            s.health(s.class_count(&format!("payload:{a}:{m}:{k}")) > 0, &format!("payload-refusals never produced a '{k}' {m} for {a}"));
+        }
+    }
 }
+
+/// (agent, kind, class) of payload cases that must have been evaluated (coverage of the generator)
+const PAYLOAD_CLASSES: &[(&str, &str, &str)] = &[
+    ("keepalive", "ResponseKeepAlive", "cookie"),
+    ("keepalive", "ResponseKeepAlive", "cookie-range"),
+    ("keepalive-server", "KeepAlive", "field1-type"),
+    ("handshake-n2n", "Refuse", "reason-tag"),
+    ("handshake-n2c", "Accept", "version-data"),
+    ("handshake-server-n2n", "Propose", "version-data"),
+    ("localstate", "Failure", "reason-code"),
+    ("peersharing-server", "ShareRequest", "amount-range"),
+    ("chainsync-n2n", "RollForward", "field1-type"),
+    ("blockfetch", "Block", "field1-type"),
+    ("txsubmission", "RequestTxs", "field1-type"),
+    ("txmonitor", "Acquired", "field1-type"),
+    ("localtxsubmission", "RejectTx", "field1-type"),
+];
